@@ -215,6 +215,14 @@ def gen_case(rng, thorough=False, hazard=None):
             ops.append([4, lvl, 0 if rng.random() < 0.5 else 1, 0, 0])
         elif r < 0.80 and not extra:
             ops.append([5, lvl, 0 if rng.random() < 0.5 else 1, 0, 0])
+        elif r < 0.83:
+            if rng.random() < 0.5:
+                ops.append([3, 4, lvl, 0, 0])               # reset_filter()
+                if lvl < depth:
+                    stale_from = lvl if stale_from is None else \
+                        min(stale_from, lvl)
+            else:
+                ops.append([3, 5, lvl, rng.choice([0, 0, 1, 2, 3]), 0])
         elif r < 0.86:
             # stray read; only on a level that is not out of date (reading
             # below a separately refreshed ancestor may raise IndexError)
@@ -270,6 +278,16 @@ def gen_scenario(rng, thorough=False):
                         rng.randint(0, 50), 0])
         elif r < 0.35 and not pure:
             ops.append([4, rng.randint(0, depth), rng.randint(0, 1), 0, 0])
+        elif r < 0.50:
+            # reset_filter() on a level below the root (its exclusions and
+            # stored ids are dropped; hidden ones must not come back), or a
+            # deleted range; refresh before anything else happens below
+            if rng.random() < 0.6:
+                ops.append([3, 4, rng.randint(1, depth), 0, 0])
+            else:
+                ops.append([3, 5, rng.randint(0, depth), rng.choice([0, 1]),
+                            0])
+            ops.append([3, 1, 0, 0, 0])
         r = rng.random()
         if r < 0.12:
             # the first access of a feature after a refresh asks for another
@@ -353,8 +371,11 @@ def gen_sib(rng, thorough=False):
     for lvl in range(nshared + 1):
         ops.append([0, lvl, 0, -1, n + 1])
     ops += [[3, 0, 0, 0, 0], [13, 0, 0, 0, 0], [3, 0, 0, 0, 0]]
-    return dict(n=n, cols=cols, extra=rng.choice([0, 0, 1]), hazard=False,
+    case = dict(n=n, cols=cols, extra=rng.choice([0, 0, 1]), hazard=False,
                 family="sib", ops=ops)
+    if rng.random() < 0.15:
+        case.update(h5=True, extra=1)        # an .rtdc root
+    return case
 
 
 def gen_poly(rng, thorough=False):
@@ -981,6 +1002,28 @@ def observe(case, nodes, oracle_fail, stats, opi):
             parent = chain[lvl - 1]
             pm = np.array(masks[lvl - 1], dtype=bool)
             sel = np.where(pm)[0]
+            # the child's own event index is 1..len (renumbered by design)
+            idx_arr = np.asarray(ds["index"][:])
+            if idx_arr.tolist() != list(range(1, length + 1)):
+                oracle_fail(where + "child['index'] is %s, expected 1..%d"
+                            % (idx_arr.tolist()[:8], length))
+            # ChildScalar.min/max/mean (cached per feature object)
+            for s_, name in scalar_slots(ds):
+                want = np.asarray(root[name][:], dtype=float)[vis[lvl]] \
+                    if length else np.zeros(0)
+                if not np.any(np.isfinite(want)):
+                    continue
+                feat_obj = ds[name]
+                for fn, ref in (("min", np.nanmin), ("max", np.nanmax),
+                                ("mean", np.nanmean)):
+                    if fn != "mean" and np.any(np.isinf(want)):
+                        pass
+                    got = getattr(feat_obj, fn)()
+                    exp = ref(want)
+                    if not (got == exp or (np.isnan(got) and np.isnan(exp))
+                            or abs(got - exp) <= 1e-12 * max(1, abs(exp))):
+                        oracle_fail(where + "%s.%s() is %r, the view's is "
+                                    "%r" % (name, fn, got, exp))
             for name in ds.features:
                 if name == "index":
                     continue
@@ -1030,6 +1073,38 @@ def view_mismatch(ds, parent, root, name, sel, rootids):
             return bool(np.array_equal(a, b, equal_nan=True))
         return bool(np.array_equal(a, b))
 
+    def forms_mismatch(c, rootfeat, label0, ragged=False):
+        """the other index forms of a non-scalar child feature: negative,
+        slice, increasing index array (h5py accepts nothing else), boolean
+        mask -- each against the root's events"""
+        m = len(sel)
+        if not m:
+            return None
+        if not eq(c[-1], rootfeat[rootids[m - 1]]):
+            return "%s[-1] differs from the root's event" % label0
+        if ragged:
+            # variable-length events (contour): only where the root
+            # itself supports these index forms
+            try:
+                rootfeat[np.array([0])]
+            except TypeError:
+                return None
+        forms = [("[0:2]", lambda: c[0:2], list(range(m))[0:2]),
+                 ("[[0, m-1]]", lambda: c[np.array(sorted({0, m - 1}))],
+                  sorted({0, m - 1})),
+                 ("[bool]", lambda: c[np.arange(m) % 2 == 0],
+                  list(range(0, m, 2)))]
+        for label, get, idx in forms:
+            got = get()
+            if len(got) != len(idx):
+                return "%s%s has %d events, expected %d" % (
+                    label0, label, len(got), len(idx))
+            for g, i in zip(got, idx):
+                if not eq(g, rootfeat[rootids[i]]):
+                    return "%s%s differs from the root's events" % (
+                        label0, label)
+        return None
+
     if name == "trace":
         for tr in parent["trace"]:
             if tr not in ds["trace"]:
@@ -1042,6 +1117,9 @@ def view_mismatch(ds, parent, root, name, sel, rootids):
                 if not eq(c[i], parent["trace"][tr][p]) or \
                         not eq(c[i], root["trace"][tr][r]):
                     return "trace %s differs at child event %d" % (tr, i)
+            msg = forms_mismatch(c, root["trace"][tr], "trace %s" % tr)
+            if msg:
+                return msg
         return None
     if name in ("image", "mask", "contour", "image_bg"):
         c = ds[name]
@@ -1050,26 +1128,7 @@ def view_mismatch(ds, parent, root, name, sel, rootids):
         for i, (p, r) in enumerate(zip(sel, rootids)):
             if not eq(c[i], parent[name][p]) or not eq(c[i], root[name][r]):
                 return "%s differs at child event %d" % (name, i)
-        m = len(sel)
-        if m and name != "contour":
-            # other index forms: negative, slice, index array, boolean mask
-            forms = [("[-1]", c[-1], [m - 1]),
-                     ("[0:2]", c[0:2], list(range(m))[0:2]),
-                     # (increasing: h5py accepts nothing else)
-                     ("[[0, m-1]]", c[np.array(sorted({0, m - 1}))],
-                      sorted({0, m - 1})),
-                     ("[bool]", c[np.arange(m) % 2 == 0],
-                      list(range(0, m, 2)))]
-            for label, got, idx in forms:
-                want = np.array([np.asarray(root[name][rootids[i]])
-                                 for i in idx])
-                got = np.asarray(got)
-                if label == "[-1]":
-                    want = want[0]
-                if not eq(got, want):
-                    return "%s%s differs from the root's events" % (
-                        name, label)
-        return None
+        return forms_mismatch(c, root[name], name, ragged=(name == "contour"))
     c = np.asarray(ds[name][:])
     p = np.asarray(parent[name][:])[sel] if len(sel) else \
         np.asarray(parent[name][:])[:0]
@@ -1156,12 +1215,34 @@ def run(run):
             run.count("hazard-cases")
         if c.get("extra"):
             run.count("with-mask-contour-trace")
-        for o in c["ops"]:
-            run.count(["op:range", "op:manual", "op:temp", "op:rejuvenate",
-                       "op:enable", "op:rminvalid", "op:grow", "op:share",
-                       "op:polygon", "op:limit"][o[0] % 10])
+        if c.get("h5"):
+            run.count("root:rtdc")
+        for o in ops_of(c):
+            t = o[0] % 10
+            if t == 3:
+                key = ["op:rejuvenate+read-all", "op:rejuvenate-only",
+                       "op:stray-read", "op:root-config", "op:reset_filter",
+                       "op:range-deleted", "op:lone-min"][o[1]] \
+                    if 0 <= o[1] <= 6 else "op:3-other"
+                if o[1] == 2 and o[4] % 5:
+                    key = "op:stray-read-with-dtype"
+            elif t == 2 and o[2] == 2 and c.get("family") == "ext":
+                key = "op:temp-nonscalar"
+            else:
+                key = ["op:range", "op:manual", "op:temp", "", "op:enable",
+                       "op:rminvalid", "op:grow", "op:share", "op:polygon",
+                       "op:limit"][t]
+            run.count(key)
         if fail is not None:
             run.oracle_failure(c, fail, classify(c, fail))
+    for key in ("root:rtdc", "op:stray-read", "op:stray-read-with-dtype",
+                "op:reset_filter", "op:range-deleted", "op:root-config",
+                "op:lone-min", "op:temp-nonscalar", "family:sib",
+                "family:poly", "family:ext"):
+        if not run.dist.get(key):
+            run.notes.append("input class %s was not generated" % key)
+            run.broken.append(("generator(C04)", "input class %s was not "
+                               "generated in this run" % key))
     for fam, fn in (("chain", "run_both"), ("sib", "run_sib")):
         idx = [i for i, c in enumerate(cases)
                if c.get("family", "chain") == fam]
